@@ -92,7 +92,7 @@ func runLifetime(c C13Case, ev *Evid) (fs []Finding) {
 	var err error
 	expectFail := true
 	switch c.Mode {
-	case "healthy-open", "healthy-open-spawn", "healthy-open-unprivileged", "healthy-open-double-close", "healthy-open-mode0444", "healthy-open-synced", "healthy-open-after-options":
+	case "healthy-open", "healthy-open-spawn", "healthy-open-unprivileged", "healthy-open-double-close", "healthy-open-mode0444", "healthy-open-synced", "healthy-open-after-options", "healthy-open-replaced-while-waiting":
 		os.WriteFile(path, valid, 0644)
 		if c.Mode == "healthy-open-after-options" {
 			// an earlier Open of ANOTHER file with non-default options (unlocked, read-only) in this process must
@@ -261,6 +261,58 @@ func runLifetime(c C13Case, ev *Evid) (fs []Finding) {
 			return
 		}
 		ev.Count(HashJSON(c), true, "mode="+c.Mode)
+		return
+	}
+	if c.Mode == "healthy-open-replaced-while-waiting" {
+		// a second Open waits for the lock; meanwhile the path is replaced by another file (rename over it, as a
+		// writer that rebuilds a metric atomically does); the first handle is closed and the second Open returns.
+		// Whichever file that handle is on: IF it is the file now at the path, that file must be locked.
+		type res struct {
+			d   *wt.Whisper
+			err error
+		}
+		got := make(chan res, 1)
+		go func() {
+			d, e := openWT(path)
+			got <- res{d, e}
+		}()
+		time.Sleep(time.Duration(30+c.Cut%50) * time.Millisecond) // let it reach the lock
+		repl := filepath.Join(dir, "replacement.wsp")
+		os.WriteFile(repl, valid, 0644)
+		if err := os.Rename(repl, path); err != nil {
+			db.Close()
+			add("setup", "rename: %v", err)
+			return
+		}
+		db.Close()
+		var r res
+		select {
+		case r = <-got:
+		case <-time.After(5 * time.Second):
+			add("second-open-stuck", "an Open that waited for the lock did not return within 5 s after the holder closed (the path had been replaced meanwhile)")
+			return
+		}
+		if r.err != nil {
+			ev.Count(HashJSON(c), true, "mode="+c.Mode, "waiting-open-failed")
+			return
+		}
+		// where does this handle write?
+		marker := 4242.5
+		updateWT(r.d, 0, 1500000000, marker, 1500000000)
+		r.d.Sync()
+		onPath := false
+		if rs, e := readArchives(path, c13Layout, 1499999999, 1500000000, 1500000000); e == nil && !rs[0].Nil && len(rs[0].S.Values) > 0 && rs[0].S.Values[0] == marker {
+			onPath = true
+		}
+		if onPath {
+			if free, _ := probeLock(path); free {
+				r.d.Close()
+				add("not-locked", "mode=%s: the Open that waited returned a handle on the file now at the path (its update shows there), but that file is not locked while the handle is open", c.Mode)
+				return
+			}
+		}
+		r.d.Close()
+		ev.Count(HashJSON(c), true, "mode="+c.Mode, fmt.Sprintf("handle-on-current-file=%v", onPath))
 		return
 	}
 	if c.Mode == "healthy-open-double-close" {
@@ -592,7 +644,7 @@ func runC13(c C13Case, ev *Evid) []Finding {
 func genC13(t *rapid.T) C13Case {
 	if rapid.IntRange(0, 9).Draw(t, "kind") < 8 {
 		c := C13Case{Kind: "lifetime"}
-		c.Mode = rapid.SampledFrom([]string{"healthy-open", "healthy-create", "healthy-open-unprivileged", "healthy-open-double-close", "healthy-open-mode0444", "healthy-open-synced", "healthy-open-after-options", "open-empty", "open-truncated", "open-truncated", "open-corrupt", "open-corrupt", "open-short-body", "create-readonly-flag", "create-exists"}).Draw(t, "mode")
+		c.Mode = rapid.SampledFrom([]string{"healthy-open", "healthy-create", "healthy-open-unprivileged", "healthy-open-double-close", "healthy-open-mode0444", "healthy-open-synced", "healthy-open-after-options", "healthy-open-replaced-while-waiting", "open-empty", "open-truncated", "open-truncated", "open-corrupt", "open-corrupt", "open-short-body", "create-readonly-flag", "create-exists"}).Draw(t, "mode")
 		switch c.Mode {
 		case "open-truncated":
 			c.Cut = rapid.IntRange(1, 27).Draw(t, "cut")
@@ -600,6 +652,10 @@ func genC13(t *rapid.T) C13Case {
 			c.Cut = rapid.IntRange(0, 14000).Draw(t, "bodyCut")
 		case "open-corrupt":
 			c.Bytes, _ = mutateBytes(t, genValidBytes(t, "file"))
+			if rapid.IntRange(0, 3).Draw(t, "bigCount") == 0 {
+				// hundreds of archive infos: a header longer than a page, read in a second step
+				c.Bytes = genBigCountFile(t)
+			}
 		default:
 			c.Cut = rapid.IntRange(0, 100).Draw(t, "delay")
 		}
